@@ -24,6 +24,9 @@ PKGS = {
     # an alias of the marker type next to a set declared with it: gen accepts, so must check and show
     "aliasps": {"p.go": "package aliasps\n\nimport \"github.com/google/wire\"\n\ntype PS = wire.ProviderSet\n\ntype A struct{ N int }\n\nfunc NewA() A { return A{N: 1} }\n\nvar S PS = wire.NewSet(NewA)\n",
                 "wire.go": HDR % "aliasps" + "func InitA() A {\n\tpanic(wire.Build(S))\n}\n"},
+    # an injector template written as a method, with a missing input: gen refuses it, so must check
+    "methbad": {"p.go": "package methbad\n\ntype F struct{}\ntype B struct{ N int }\n\nfunc NewB(n int) B { return B{N: n} }\n",
+                "wire.go": HDR % "methbad" + "func (F) MakeB() B {\n\tpanic(wire.Build(NewB))\n}\n"},
     "cyc": {"p.go": "package cyc\n\nimport \"github.com/google/wire\"\n\ntype A struct{ N int }\ntype B struct{ N int }\n\nfunc NewA(b B) A { return A{} }\nfunc NewB(a A) B { return B{} }\nfunc NewC() int { return 1 }\n\nvar Unused = wire.NewSet(NewA, NewB)\n",
             "wire.go": HDR % "cyc" + "func InitC() int {\n\tpanic(wire.Build(NewC))\n}\n"},
 }
